@@ -24,12 +24,12 @@ import (
 
 type nullLogger struct{}
 
-func (nullLogger) Errorf(string, ...interface{})              {}
-func (nullLogger) Infof(string, ...interface{})               {}
-func (nullLogger) Debugf(string, ...interface{})              {}
-func (nullLogger) Error(string)                               {}
-func (nullLogger) Info(string)                                {}
-func (nullLogger) Debug(string)                               {}
+func (nullLogger) Errorf(string, ...interface{})               {}
+func (nullLogger) Infof(string, ...interface{})                {}
+func (nullLogger) Debugf(string, ...interface{})               {}
+func (nullLogger) Error(string)                                {}
+func (nullLogger) Info(string)                                 {}
+func (nullLogger) Debug(string)                                {}
 func (n nullLogger) WithFields(log.Fields) log.LoggerInterface { return n }
 func (n nullLogger) WithError(error) log.LoggerInterface       { return n }
 
@@ -44,9 +44,9 @@ type Dev struct {
 	Addrs []*bnet.Prefix
 }
 
-func (d *Dev) GetIndex() uint64          { return d.Index }
-func (d *Dev) GetOperState() uint8       { return d.Oper }
-func (d *Dev) GetAddrs() []*bnet.Prefix  { return d.Addrs }
+func (d *Dev) GetIndex() uint64         { return d.Index }
+func (d *Dev) GetOperState() uint8      { return d.Oper }
+func (d *Dev) GetAddrs() []*bnet.Prefix { return d.Addrs }
 
 // Updater is a mock device.Updater for several interfaces (device.MockServer keeps one client).
 type Updater struct {
@@ -159,7 +159,7 @@ type IfCfg struct {
 	Hold    uint16 `json:"hold"`
 	Metric  uint32 `json:"metric"`
 	Index   uint64 `json:"index"`
-	Net     uint32 `json:"net"` // local /31: Net is the local address, Net|1 the neighbor's
+	Net     uint32 `json:"net"`             // local /31: Net is the local address, Net|1 the neighbor's
 	Extra   int    `json:"extra,omitempty"` // additional /24 addresses on the interface
 	Dup     int    `json:"dup,omitempty"`   // the first Dup addresses of the interface are configured a second time as /32
 }
